@@ -118,8 +118,49 @@ def numeric(ctx, rep):
                 "hex=%s: digits are read from %s with radix %s" % (is_hex, sorted(res.env.get("allowed") or []), res.env.get("radix")),
                 detail={"hex": is_hex, "radix": eradix})
     src = " ".join(norm(f.node).split())
-    r.idiom("R14.3", "while c in allowed and c is not EOF:" in src and "charAsInt = int(''.join(charStack), radix)" in src,
-            "digit-loop", f.where, "the digit loop / conversion no longer use `allowed` and `radix`")
+    r.idiom("R14.3", "while c in allowed and c is not EOF:" in src and "charStack.append(c)" in src,
+            "digit-loop", f.where, "the digit loop no longer collects the characters that are in `allowed`")
+    # the conversion: the statements between the digit loop and the replacement chain, evaluated for digit strings of every
+    # significant length 1..9 (with and without leading zeros) and for one of 5000 digits, in both radixes; the value must
+    # be the number written, or any out-of-range value when the number is beyond U+10FFFF
+    loops = [s for s in body if isinstance(s, ast.While)]
+    conv = body[body.index(loops[0]) + 1:body.index(chain)] if loops and body.index(loops[0]) < body.index(chain) else []
+    conv = [s for s in conv if not (isinstance(s, ast.Expr) and isinstance(s.value, ast.Constant))]
+    scrut = "charAsInt"
+    if not conv:
+        r.idiom("R14.3", False, "conversion", f.where, "the statements converting the digits were not found")
+    else:
+        for radix, alphabet in ((10, "19"), (16, "1f")):
+            cases = []
+            for nsig in range(1, 10):
+                for lead in (0, 3):
+                    for d in alphabet:
+                        cases.append("0" * lead + d * nsig)
+            cases += ["0", "000", "1" * 5000, "0" * 5000 + "41", "0" * 4997 + "65"]
+            for digs in cases:
+                sig = digs.lstrip("0")
+                true = int(sig or "0", radix) if len(sig) <= 12 else 10 ** 13
+                key = "conversion[radix=%d,%s]" % (radix, digs if len(digs) <= 14 else "%s..x%d" % (digs[:3], len(digs)))
+                res = interp.run(conv, {"charStack": list(digs), "radix": radix, "self": Opaque("self")})
+                got = res.env.get(scrut)
+                if isinstance(got, Opaque) or got is None:
+                    why = ""
+                    for st in conv:
+                        for a in ast.walk(st):
+                            if isinstance(a, ast.Assign) and norm(a.targets[0]) == scrut:
+                                try:
+                                    ce.eval(a.value, mod, dict(res.env))
+                                except NotConstant as e:
+                                    why = str(e)
+                    r.idiom("R14.3", False, key, f.where, "the conversion is not evaluable for %d digits (%s)" % (len(digs), why[:60]),
+                            wrong=[("Exceeds the limit" in why, "a numeric reference of %d digits makes the conversion raise ValueError (%s): "
+                                    "parse() fails instead of producing U+FFFD / the character" % (len(digs), why[:50]))])
+                    continue
+                ok = got == true or (true > 0x10FFFF and isinstance(got, int) and got > 0x10FFFF)
+                shown = got if not isinstance(got, int) or got < 10 ** 13 else "an integer above 10**13"
+                r.check("R14.3", ok, key, f.where,
+                        "the digits %s (radix %d) are converted to %r; the number written is %d" % (key, radix, shown, true),
+                        {"digits": len(digs), "radix": radix}, detail={"digits": digs[:12], "value": shown if isinstance(shown, int) else None})
     r.check("R14.3", hexd == frozenset("0123456789abcdefABCDEF") and digits == frozenset("0123456789"), "digit-sets",
             "constants.py", "digits / hexDigits are not the ASCII (hex) digits")
     # semicolon handling: consumed if present, otherwise given back
@@ -367,6 +408,9 @@ def thorough(ctx):
 def mutants():
     from ..selftest import TextMutant as T
     return [
+        T("int-unbounded-digits", "_tokenizer.py", "        number = \"\".join(charStack).lstrip(\"0\")\n        if len(number) > 7:\n            charAsInt = 0x110000\n        else:\n            charAsInt = int(number or \"0\", radix)\n",
+          "        charAsInt = int(\"\".join(charStack), radix)\n", "R14.3"),
+        T("eight-digits-out-of-range", "_tokenizer.py", "        if len(number) > 7:", "        if len(number) > 5:", "R14.3"),
         T("trie-skip-one", "_trie/_base.py", "        for i in range(1, len(prefix) + 1):", "        for i in range(2, len(prefix) + 1):", "R14.8"),
         T("trie-increasing", "_trie/_base.py", "            if prefix[:-i] in self:\n                return prefix[:-i]", "            if prefix[:i] in self:\n                return prefix[:i]", "R14.8"),
         T("entity-value", "constants.py", '"AElig": "\\xc6",', '"AElig": "\\xc5",', "R14.1"),
